@@ -639,4 +639,34 @@ def rule_evaluated_each_time(ctx: Ctx):
     c01.rule_stored_callable(ctx, rule="C08.fresh")
 
 
-RULES = [rule_regex, rule_optable, rule_build, rule_fast, rule_when, rule_fresh, rule_identity, rule_conjunction, rule_evaluated_each_time]
+def rule_names_from_any_provider(ctx: Ctx):
+    """C08.when: an expression is accepted when every name has a provider - machine, model and constructor listeners are one
+    provider set, resolved together (an expression mixing names of two of them must not be rejected, nor lose a provider)."""
+    from . import c12
+
+    c12.rule_samepath(ctx, rule="C08.when")
+
+
+def rule_operators_raise_like_python(ctx: Ctx):
+    """C08.optable: an expression evaluates exactly as Python evaluates it - also when Python raises (`None > 3`, a failing operand):
+    no combinator or comparator of the expression tree catches an exception and answers with a verdict of its own."""
+    rep = ctx.rep
+    mod = _module(ctx)
+    n = 0
+    for f in mod.all_functions:
+        if isinstance(f.node, ast.Lambda):
+            continue
+        top = f
+        while top.parent is not None:
+            top = top.parent
+        if top.name not in ("custom_not", "custom_and", "custom_or", "build_constant", "build_custom_operator") and f.name != "__call__":
+            continue
+        n += 1
+        tries = [x for x in own_nodes(f.node) if isinstance(x, ast.Try) and x.handlers]
+        with_suppress = [x for x in own_nodes(f.node) if isinstance(x, ast.With) and any("suppress" in show(i_.context_expr) for i_ in x.items)]
+        rep.check(not tries and not with_suppress, "C08.optable", f.loc(), f"{f.qualname}: exceptions of the operands and of the comparison itself "
+                  "propagate (Python would raise too)", f.key, norm_stmt((tries + with_suppress)[0]) if (tries or with_suppress) else "no handler")
+    rep.floor("C08.optable", "combinator / comparator functions", n, 6)
+
+
+RULES = [rule_regex, rule_optable, rule_build, rule_fast, rule_when, rule_fresh, rule_identity, rule_conjunction, rule_evaluated_each_time, rule_names_from_any_provider, rule_operators_raise_like_python]
